@@ -177,6 +177,75 @@ fn ref_gepp_complex(n: usize, ar0: &[f64], ai0: &[f64]) -> RefLu {
     RefLu { singular, sum_u, max_u, min_piv, swaps }
 }
 
+/// n * max|A| * max|A^-1| from a Gauss-Jordan inversion with partial pivoting (infinite when a pivot
+/// column vanishes): how far, relative to |A|, the matrix is from a singular one.
+fn ref_cond(n: usize, ar0: &[f64], ai0: Option<&[f64]>) -> f64 {
+    let w = 2 * n;
+    let mut ar = vec![0.0; n * w];
+    let mut ai = vec![0.0; n * w];
+    let mut amax: f64 = 0.0;
+    for i in 0..n {
+        for j in 0..n {
+            ar[i * w + j] = ar0[i * n + j];
+            ai[i * w + j] = ai0.map_or(0.0, |v| v[i * n + j]);
+            amax = amax.max(ar[i * w + j].hypot(ai[i * w + j]));
+        }
+        ar[i * w + n + i] = 1.0;
+    }
+    for k in 0..n {
+        let mut m = k;
+        let mut best = ar[k * w + k].hypot(ai[k * w + k]);
+        for i in k + 1..n {
+            let v = ar[i * w + k].hypot(ai[i * w + k]);
+            if v > best {
+                best = v;
+                m = i;
+            }
+        }
+        if best == 0.0 || !best.is_finite() {
+            return f64::INFINITY;
+        }
+        if m != k {
+            for j in 0..w {
+                ar.swap(m * w + j, k * w + j);
+                ai.swap(m * w + j, k * w + j);
+            }
+        }
+        let (pr, pi) = (ar[k * w + k], ai[k * w + k]);
+        // scaled complex division by the pivot
+        let s = pr.abs().max(pi.abs());
+        let (qr, qi) = (pr / s, pi / s);
+        let den = (qr * qr + qi * qi) * s;
+        for j in 0..w {
+            let (xr, xi) = (ar[k * w + j], ai[k * w + j]);
+            ar[k * w + j] = (xr * qr + xi * qi) / den;
+            ai[k * w + j] = (xi * qr - xr * qi) / den;
+        }
+        for i in 0..n {
+            if i == k {
+                continue;
+            }
+            let (lr, li) = (ar[i * w + k], ai[i * w + k]);
+            if lr == 0.0 && li == 0.0 {
+                continue;
+            }
+            for j in 0..w {
+                let (ur, ui) = (ar[k * w + j], ai[k * w + j]);
+                ar[i * w + j] -= lr * ur - li * ui;
+                ai[i * w + j] -= lr * ui + li * ur;
+            }
+        }
+    }
+    let mut imax: f64 = 0.0;
+    for i in 0..n {
+        for j in 0..n {
+            imax = imax.max(ar[i * w + n + j].hypot(ai[i * w + n + j]));
+        }
+    }
+    let c = n as f64 * amax * imax;
+    if c.is_nan() { f64::INFINITY } else { c }
+}
+
 // ---- exact rational elimination for small integer matrices ----------------------------------
 fn gcd(a: i128, b: i128) -> i128 {
     let (mut a, mut b) = (a.abs(), b.abs());
@@ -367,8 +436,13 @@ pub fn check(c: &Case) -> Outcome {
             // eliminations differ by O(n*eps*max|U|), so this is legitimate when the reference's
             // smallest pivot is at rounding level (rank-deficient-by-accident input, e.g. a sparse
             // pattern with two rows supported on one column) and impossible otherwise.
-            if rf.min_piv > 1e-9 * rf.max_u {
-                return Outcome::viol(format!("nonsingular matrix rejected with SingularMatrix (reference pivots are all >= {:.3e} * max|U|)", rf.min_piv / rf.max_u));
+            // "Rounding level" is relative to the conditioning: a backward-stable elimination meets an exact zero
+            // only if a matrix within c*n*eps*|A| of A is singular, i.e. only if cond(A) >~ 1/(c*n*eps).  (The smallest
+            // reference pivot alone is not the measure: after a pivot of relative size 1e-8 the later pivots carry
+            // errors of 1e8*eps.)
+            let cond = ref_cond(n, &c.ar, if c.complex { Some(&c.ai) } else { None });
+            if cond < 1e10 {
+                return Outcome::viol(format!("nonsingular matrix rejected with SingularMatrix (n*max|A|*max|A^-1| = {:.3e}; reference pivots are all >= {:.3e} * max|U|)", cond, rf.min_piv / rf.max_u));
             }
             return Outcome::triv("numerically-singular-rejected");
         }
